@@ -33,7 +33,7 @@ ASSUMPTIONS = [
     "dns.message.time is replaced by a virtual clock",
     "a flipped bit the reference still authenticates (message ID, ASCII case of key/algorithm name letters) may be accepted",
 ]
-REQUIRED = ["mon.continuation_names_another_key", "mon.direct_renderer_signing", "mon.mac_equals_reference", "mon.lib_accepts_own", "mon.ref_accepts_lib", "mon.lib_accepts_ref_sequence", "mon.bitflip", "mon.fault_rejected", "mon.multi_envelope"]
+REQUIRED = ["mon.arcount_multiple_of_256", "mon.empty_secret_key", "mon.continuation_names_another_key", "mon.direct_renderer_signing", "mon.mac_equals_reference", "mon.lib_accepts_own", "mon.ref_accepts_lib", "mon.lib_accepts_ref_sequence", "mon.bitflip", "mon.fault_rejected", "mon.multi_envelope"]
 BUDGET = {"quick": 45.0, "thorough": 480.0}
 
 ALGS = list(RT.ALGS)
@@ -141,6 +141,41 @@ def check_single(ctx, rng, algtext):
         m5, e = lib_validate(rw, key, clock, b"")
         if e is None:
             ctx.violation("response-accepted-without-request-mac", "", dict(case, wire=rw))
+        # a message whose additional section, TSIG included, counts a multiple of 256 records (the count the validator has to
+        # decrement borrows from its high octet); and a key whose secret is the empty string (falsy, but a key)
+        if rng.random() < 0.25:
+            ctx.count("mon.arcount_multiple_of_256")
+            big = dns.message.make_response(dns.message.make_query("big.example.", "A"))
+            for i in range(255):
+                big.find_rrset(big.additional, dns.name.from_text(f"a{i}.big.example."), 1, 1, create=True).add(dns.rdata.from_text("IN", "A", "192.0.2.1"), 1)
+            bw = sign_with_lib(big, key, clock, b"", fudge)
+            bs = RT.Split(bw)
+            if bs.mac != RT.mac(algtext, secret, RT.digest_input(bs)):
+                ctx.violation(f"request-mac-differs-from-rfc8945:{algtext}:arcount-256", "", dict(case, wire=bw))
+            mb, e = lib_validate(bw, key, clock)
+            if e is not None:
+                ctx.violation("genuine-request-rejected:arcount-multiple-of-256:" + core.exc_sig(e), repr(e), dict(case, wire=bw))
+        if rng.random() < 0.25:
+            ctx.count("mon.empty_secret_key")
+            ekey = dns.tsig.Key(dns.name.Name(kl), b"", dns.name.from_text(algtext))
+            em, _ = GM.gen_message(rng, kind="query", size="small")
+            ew = sign_with_lib(em, ekey, clock, b"", fudge)
+            es = RT.Split(ew)
+            if es.mac != RT.mac(algtext, b"", RT.digest_input(es)):
+                ctx.violation(f"request-mac-differs-from-rfc8945:{algtext}:empty-secret", "", dict(case, wire=ew))
+            tb = bytearray(ew)
+            tb[es.tsig_start - 1] ^= 0x01  # last octet of the signed content
+            for ring_kind, ring in (("dict-of-secrets", {dns.name.Name(kl): b""}), ("key", ekey), ("callable", lambda m_, n_: ekey)):
+                try:
+                    with swap_attr(dns.message, "time", clock):
+                        dns.message.from_wire(bytes(tb), keyring=ring)
+                    ctx.violation(f"altered-or-foreign-message-accepted:empty-secret:{ring_kind}", "one bit of the signed content flipped", dict(case, wire=bytes(tb)))
+                    break
+                except dns.exception.DNSException:
+                    ctx.count("mon.fault_rejected")
+                except Exception as e:
+                    ctx.violation(f"empty-secret-validation-raised-foreign:{ring_kind}:" + core.exc_sig(e), repr(e), dict(case, wire=bytes(tb)))
+                    break
         # the other spellings of "sign with this key": a keyring of bare secrets with the algorithm as an argument, the key
         # named or (one entry) not named -- same key, same algorithm, hence the same MAC
         ctx.count("mon.use_tsig_spellings")
